@@ -287,7 +287,9 @@ impl Monitor for ReqMon {
     fn on_event(&mut self, w: &Inner, _st: &Stamp, ev: &Ev) -> Option<Violation> {
         self.attr.feed(ev);
         match ev {
-            Ev::RecvRet { task, res: RecvRes::Data { from, data, .. }, .. } if Some(*task) == self.attr.listener => {
+            // a request is judged from the moment it reaches the listening socket (what the listener makes
+            // of it, e.g. after truncation by a too small receive buffer, is the server's business)
+            Ev::Deliver { dst, src: from, data, to_peer: None, .. } if *dst == self.listen => {
                 let ap = self.active_peer.get(from).copied();
                 if let Some(idx) = self.reqs.iter().position(|r| r.client == *from && ap.map_or(true, |p| p == r.peer)) {
                     if matches!(rfc::decode(data), Some(Pkt::Rrq { .. }) | Some(Pkt::Wrq { .. })) {
